@@ -36,6 +36,77 @@ impl<'a> View<'a> {
     pub fn terminal(&self) -> &Result<Option<m::Winner>, String> {
         self.term.get_or_init(|| guard(|| winner_of(&self.eng.is_terminal())))
     }
+    /// Asks the state's public queries once in the order number `order` (one of 64 fixed permutations,
+    /// some queries twice) before an observer looks at it; the lists and the result an observer then sees
+    /// are the ones obtained in that order. Everything is guarded.
+    pub fn prequery(&self, order: u8) {
+        let mut qs: Vec<u8> = (0..14u8).collect();
+        let mut z = 0x9e3779b97f4a7c15u64.wrapping_mul(order as u64 + 1);
+        for i in (1..qs.len()).rev() {
+            z = mix64(z);
+            qs.swap(i, (z % (i as u64 + 1)) as usize);
+        }
+        let e = self.eng;
+        for q in qs {
+            let _ = guard(|| match q {
+                0 => {
+                    let _ = self.va();
+                }
+                1 => {
+                    let _ = self.vanr();
+                }
+                2 => {
+                    let _ = self.terminal();
+                }
+                3 => {
+                    let _ = e.can_pass(true);
+                }
+                4 => {
+                    let _ = e.can_pass(false);
+                }
+                5 => {
+                    let _ = e.has_move(e.piece_board());
+                }
+                6 => {
+                    let _ = e.transposition_hash();
+                }
+                7 => {
+                    let _ = e.to_string();
+                }
+                8 => {
+                    if e.is_play_phase() {
+                        for i in 0..=e.current_step() {
+                            let _ = e.piece_board_for_step(i).all_pieces;
+                        }
+                    }
+                }
+                9 => {
+                    for a in e.valid_actions_no_rep().iter().take(6) {
+                        let _ = e.trapped_animal_for_action(a);
+                    }
+                }
+                10 => {
+                    for a in e.valid_actions().iter().rev().take(4) {
+                        let n = e.take_action(a);
+                        let _ = n.transposition_hash();
+                    }
+                }
+                11 => {
+                    let c = e.clone();
+                    let _ = c == *e;
+                    let _ = c.valid_actions_no_rep();
+                }
+                12 => {
+                    let _ = e.valid_actions_no_rep();
+                    let _ = e.valid_actions();
+                }
+                _ => {
+                    let _ = e.is_terminal();
+                    let _ = e.can_pass(true);
+                }
+            });
+        }
+    }
     pub fn describe(&self) -> String {
         format!(
             "[{} {} step {} move {} | {} | parse {:?} | status {:?}]",
@@ -1033,6 +1104,18 @@ pub fn walk(
                     return Err(WalkFail { fail: Fail::new(&f.clause, format!("(a fresh object of this state, rebuilt through the constructors, first asked has_move with an empty board) {}", f.detail)), trace: t, inconclusive: false });
                 }
             }
+            // another fresh object whose queries are first asked in another order
+            if let Some((fr2, _)) = fork_with_history(&eng, &mo, &[]) {
+                let order = (fp_combine(aux, i as u64 ^ 0x3d3d) % 64) as u8;
+                let v5 = View::new(&fr2, &mo, false);
+                v5.prequery(order);
+                st.bump("fresh_objects_queried_in_another_order");
+                if let Err(f) = obs.on_state(&v5, st) {
+                    let mut t = trace.clone();
+                    t.fork = Some(VARIANT_INTERFERE);
+                    return Err(WalkFail { fail: Fail::new(&f.clause, format!("(a fresh object of this state whose public queries were first asked in order number {}) {}", order, f.detail)), trace: t, inconclusive: false });
+                }
+            }
         }
         if opts.interfere && !mo.setup && mo.step == 1 {
             if let Err((f, variant)) = observe_forks(&eng, &mo, &[VARIANT_LOCKSTEP], obs, st) {
@@ -1191,6 +1274,13 @@ pub fn walk(
             });
             let v3 = View::new(&fr, &mo, false);
             obs.on_state(&v3, st).map_err(|f| fail_with(f, &trace))?;
+        }
+        for order in 0..64u8 {
+            if let Some((fr2, _)) = fork_with_history(&eng, &mo, &[]) {
+                let v5 = View::new(&fr2, &mo, false);
+                v5.prequery(order);
+                obs.on_state(&v5, st).map_err(|f| fail_with(Fail::new(&f.clause, format!("(a fresh object of this state whose public queries were first asked in order number {}) {}", order, f.detail)), &trace))?;
+            }
         }
     } else if let Inject::AtEnd(variant) = opts.inject {
         if let Err((f, variant)) = observe_forks(&eng, &mo, &[variant], obs, st) {
